@@ -25,12 +25,15 @@ func runShutdown(c *run.Ctx, state string, actions []string, parkHook bool, pend
 	sim.InstallHooks(w)
 	w.DataCap = 64
 	connackAt := c.Rng.Intn(4)
+	dialerIgnoresCancel := c.Rng.Intn(2) == 0
 	parkedOnce := false
 	w.Mu.Lock()
 	w.DialPlan = func(w *sim.World, n int) sim.DialDecision {
 		switch {
 		case state == "dialing" && n == 1:
-			return sim.DialDecision{Gate: "state"}
+			// (half of the Dialers do not look at their context: the
+			// connection comes back after the client was closed)
+			return sim.DialDecision{Gate: "state", IgnoreCancel: dialerIgnoresCancel}
 		case (state == "down" || state == "down-signal-taken") && n == 1:
 			return sim.DialDecision{Err: errors.New("sim: unreachable")}
 		}
@@ -327,7 +330,11 @@ func runShutdown(c *run.Ctx, state string, actions []string, parkHook bool, pend
 	// Disconnect needs the write lock: with a writer held inside Write it may
 	// wait for that write to end, so the held write gets released then.
 	promptly := true
-	if strings.HasSuffix(state, "-signal-taken") {
+	if state == "dialing" && dialerIgnoresCancel {
+		// nothing can interrupt such a Dialer: the actions wait for it; let them
+		// get there, then the dial comes back with a connection nobody wants
+		time.Sleep(time.Duration(1+c.Rng.Intn(5)) * time.Millisecond)
+	} else if strings.HasSuffix(state, "-signal-taken") {
 		// the actions may wait for the signal to come back (not for long, says the
 		// code: here the hook holds it); give them time to get there, then let go
 		time.Sleep(time.Duration(1+c.Rng.Intn(10)) * time.Millisecond)
@@ -493,10 +500,11 @@ func runShutdown(c *run.Ctx, state string, actions []string, parkHook bool, pend
 		}
 	}
 	// connections and goroutines left behind
+	dtLeft := detail() // (takes the lock itself)
 	w.Mu.Lock()
 	for _, cn := range w.Conns {
 		if !cn.Closed() {
-			c.Violate("connection-left-open", fmt.Sprintf("conn %d was never closed", cn.Idx), detail())
+			c.Violate("connection-left-open", fmt.Sprintf("conn %d was never closed", cn.Idx), dtLeft)
 		}
 	}
 	_ = lastConn
